@@ -608,3 +608,77 @@ Theorem C02_publish_only_when_enabling_refuted :
     g_on (grun gate_as_written config_always g [GConfig false]) = false.
 Proof. exact publish_only_when_enabling_refuted. Qed.
 Print Assumptions C02_publish_only_when_enabling_refuted.
+
+(** * Rule changes queued while an engine rebuild is pending (round 9)
+
+    "For all rule sets": the rule set in force is the one of the last
+    accepted change (set_rules, set_url, add_url, remove_url), which reaches
+    the running engines through the one-slot channel between the web handlers
+    and the updates loop (Model/FilterQueue.v, the model of C01, reused).
+    Whatever was pending or being installed when the last change arrived,
+    once the loop has served the queue the records of an upstream answer are
+    checked against the rules of that last change. *)
+From AGH Require Import Model.FilterQueue Proofs.FilterQueue Proofs.PipelineQueueResp.
+
+Theorem C02_queue_offending_record_blocks :
+  forall sb par ss srt st hs c up q r pre rr0 post res,
+  let s := hrun (pinit st) hs in
+  let a := match_request (allow_rules (q_conf s)) in
+  let b := match_request (block_rules (q_conf s)) in
+  response_filtering_applies a b sb par ss srt c q ->
+  up (q_name q) (q_qtype q) = Some r ->
+  rs_answer r = pre ++ rr0 :: post ->
+  Forall (clean a b c (request_settings c q)) pre ->
+  check_rr a b (request_settings c q) (strip_rr c rr0) = Some res ->
+  let o := ask_q sb par ss srt (pquiesce s) c up q in
+  o_resp o = Some (synthetic c (q_name q) (q_qtype q) (ips_from_rules res)) /\
+  o_result o = res /\ r_filtered res = true /\ r_reason res = FilteredBlockList /\
+  o_orig_kept o = true /\ o_calls o = [the_call q] /\ o_qname o = q_name q.
+Proof. exact queue_offending_record_blocks. Qed.
+Print Assumptions C02_queue_offending_record_blocks.
+
+Theorem C02_queue_clean_answer_unchanged :
+  forall sb par ss srt st hs c up q r,
+  let s := hrun (pinit st) hs in
+  let a := match_request (allow_rules (q_conf s)) in
+  let b := match_request (block_rules (q_conf s)) in
+  response_filtering_applies a b sb par ss srt c q ->
+  up (q_name q) (q_qtype q) = Some r ->
+  Forall (clean a b c (request_settings c q)) (rs_answer r) ->
+  let o := ask_q sb par ss srt (pquiesce s) c up q in
+  o_resp o = Some (with_answer r (map (strip_rr c) (rs_answer r))) /\
+  o_orig_kept o = false /\ r_filtered (o_result o) = false /\ o_qname o = resp_qname r (q_name q).
+Proof. exact queue_clean_answer_unchanged. Qed.
+Print Assumptions C02_queue_clean_answer_unchanged.
+
+(** The rules of the last set_rules call head the block engine the records
+    are checked with, whatever was queued or being installed when it came. *)
+Theorem C02_queue_last_set_rules_decide :
+  forall sb par ss srt st hs rs c up q,
+  let s := handle (hrun (pinit st) hs) (QRules rs) in
+  ask_q sb par ss srt (pquiesce s) c up q =
+  process (match_request (allow_rules (q_conf s))) (match_request (rs ++ active (ls_block (q_conf s))))
+          sb par ss srt c up q.
+Proof. exact queue_last_set_rules_decide. Qed.
+Print Assumptions C02_queue_last_set_rules_decide.
+
+(** With a non-blocking send in place of drain-then-send: two set_rules
+    calls while the loop is away, the second blocks b.a.test; the answer
+    "x.test CNAME b.a.test" is delivered although the configuration in force
+    blocks the target (the model with the code's policy blocks it). *)
+Theorem C02_nonblocking_send_delivers_blocked_record_refuted :
+  settled exq_ops = true /\
+  let s := run apply_q ptake enq_nonblocking (pinit exq_st) exq_ops in
+  let o := ask_engines (fun _ => false) (fun _ => false) no_ss Rewrites.isort
+             (q_engine (pquiesce s)) (ex_cfg MDefault) exr_up ex_query_other in
+  let want := PipelineLists.ask (fun _ => false) (fun _ => false) no_ss Rewrites.isort (q_conf s) (ex_cfg MDefault) exr_up ex_query_other in
+  o_orig_kept want = true /\ r_filtered (o_result want) = true /\
+  o_orig_kept o = false /\ o_resp o = exr_up [] 0%N.
+Proof. exact nonblocking_send_delivers_blocked_record. Qed.
+Print Assumptions C02_nonblocking_send_delivers_blocked_record_refuted.
+
+Example C02_drain_then_send_blocks_revealed_record :
+  let s := prun (pinit exq_st) exq_ops in
+  let o := ask_q (fun _ => false) (fun _ => false) no_ss Rewrites.isort (pquiesce s) (ex_cfg MDefault) exr_up ex_query_other in
+  o_orig_kept o = true /\ r_filtered (o_result o) = true.
+Proof. exact drain_then_send_blocks_revealed_record. Qed.
